@@ -313,11 +313,7 @@ class Check:
         self.extra = {}
         self.checker_cmd = 'make -k -C coq Properties_%s.vo (coqc 8.16.1, full .vo build)' % pid
         self.known = [k for k in load_known().get('known', []) if k.get('property') == pid]
-        for old in glob.glob(os.path.join(ROOT, 'evidence', 'replay', pid + '-*.json')):
-            try:
-                os.remove(old)
-            except OSError:
-                pass
+        self.replay_mode = False
 
     # -- proof side
     def prove(self, prop_file=None, extra_targets=(), timeout=3000):
@@ -378,10 +374,22 @@ class Check:
                                 'replay': replay, 'found_input': found_input})
         return True
 
+    def clear_old_replays(self):
+        for old in glob.glob(os.path.join(ROOT, 'evidence', 'replay', self.pid + '-*.json')):
+            try:
+                os.remove(old)
+            except OSError:
+                pass
+
     def finish(self):
         wall = time.time() - self.t0
         rdir = os.path.join(ROOT, 'evidence', 'replay')
         os.makedirs(rdir, exist_ok=True)
+        if self.replay_mode:
+            # a replay reports, it does not rewrite the evidence of the last full run
+            for v in self.violations:
+                print('VIOLATION property=%s replay=%s' % (self.pid, v.get('replay_path', 'replayed-input')))
+            return 1 if self.violations else 0
         lines = []
         for k in self.known_hits:
             lines.append('KNOWN-FINDING: property=%s %s' % (self.pid, k.get('what', k['id'])))
